@@ -172,7 +172,10 @@ class Program:
         return f.id in self.absorbed
 
     def shape_fns(self):
-        """the functions a shape rule iterates over: everything except absorbed helpers (inlined view only)"""
+        """the functions a rule iterates over: everything except absorbed helpers — their content is judged inside the callers it
+        was spliced into.  Inside `raw()` (the program as extracted) nothing is absorbed."""
+        if getattr(self, "_raw_mode", False):
+            return list(self.fns.values())
         return [f for f in self.fns.values() if not self.is_absorbed(f)]
 
     def fn(self, fid):
@@ -219,6 +222,7 @@ class Program:
 
         class _Raw:
             def __enter__(self_):
+                prog._raw_mode = True
                 self_.saved = {}
                 for f in prog.fns.values():
                     if f.raw_body is not f.body:
@@ -229,6 +233,7 @@ class Program:
                 return prog
 
             def __exit__(self_, *a):
+                prog._raw_mode = False
                 for fid, (b, i, p_) in self_.saved.items():
                     f = prog.fns[fid]
                     f.body, f.inlined, f.promoted = b, i, p_
